@@ -105,7 +105,9 @@ func (g *Gen) BuildObs(big bool) *Case {
 	}
 	cm := g.ChunkMode()
 	if big {
-		cm = []uint32{1025, 1025, 1024, 5}[g.R.Intn(4)]
+		g.bigBuilds++
+		cm = []uint32{1024, 1025, 5, 1025}[(g.bigBuilds-1)%4] // fixed modes above 1,024 documents leave chunks of a term empty
+
 	}
 	o := BatchOpts{NDocs: n}
 	if big {
